@@ -42,7 +42,7 @@ type restrict struct {
 	noRefresh  bool // no TrafficInit next to updates (known: sigRefresh / race on balance)
 	noPay      bool // race binary: Pay reads totals other goroutines write (known race findings)
 	noRecv     bool
-	paysAfter  bool // Pay only after the concurrent phase and after its PublishHeader goroutines ended (known: sigTorn)
+	paysAfter  bool // race binary: Pay only after the concurrent phase and after its PublishHeader goroutines ended (known: sigRace)
 	recvAfter  bool // race binary: the same for ReceiveCheque (its write is a plain pointer store, harmless without the detector)
 }
 
@@ -52,7 +52,8 @@ func runUngated(c ucase, raceRun bool) (st ustats, sig string, err error) {
 			sig, err = "C33/panic", fmt.Errorf("panic: %v\n%s", r, debug.Stack())
 		}
 	}()
-	rs := restrict{ownStreams: known(sigOverlap), noRefresh: known(sigRefresh), paysAfter: known(sigTorn)}
+	// the known data races only matter where the race detector runs
+	rs := restrict{ownStreams: known(sigOverlap), noRefresh: known(sigRefresh), paysAfter: raceRun && known(sigRace)}
 	if known(sigStale) && !rs.paysAfter {
 		rs.noRefresh = true // a refresh next to a Pay resets the cheque amount to its stale snapshot
 	}
@@ -138,7 +139,7 @@ func runUngated(c ucase, raceRun bool) (st ustats, sig string, err error) {
 					recvCum[r.p] = add(recvCum[r.p], bu(o.A+1))
 					r.cum = new(big.Int).Set(recvCum[r.p])
 					if rs.recvAfter {
-						rec.Excluded(sigTorn)
+						rec.Excluded(sigRace)
 						late = append(late, r)
 						r.skip = true
 					}
@@ -146,7 +147,7 @@ func runUngated(c ucase, raceRun bool) (st ustats, sig string, err error) {
 			case "pay":
 				r.skip = rs.noPay
 				if !r.skip && rs.paysAfter {
-					rec.Excluded(sigTorn)
+					rec.Excluded(sigRace)
 					late = append(late, r)
 					r.skip = true
 				}
@@ -352,7 +353,7 @@ func runUngated(c ucase, raceRun bool) (st ustats, sig string, err error) {
 			ack[0][p] = add(ack[0][p], thr)
 			before := w.proto.count(peer)
 			atomic.AddInt64(&w.cur.puts, 1)
-			if known(sigTorn) {
+			if raceRun && known(sigRace) {
 				if err := w.cur.drainHeaders(); err != nil {
 					return st, "C33/stuck", err
 				}
